@@ -161,7 +161,7 @@ def _aims(rng, spans, n, final, faults=False):
             o = rng.randrange(d0, d1 + 1)
         aims.append([o, ["d", 0]])
         if faults:
-            aims.append([o, rng.choice((["t"], ["t"], ["e", "ConnectionResetError"], ["e", "InterruptedError"], ["e", "OSError"]))])
+            aims.append([o, rng.choice((["t"], ["t"], ["e", "ConnectionResetError"], ["e", "InterruptedError"], ["e", "OSError"], ["e", "OSError/noerrno"], ["e", "ConnectionResetError/noargs"]))])
     aims.sort(key=lambda a: a[0])
     return aims
 
